@@ -37,21 +37,21 @@ Theorem C16_unique_names_inv : forall n ops T,
     (forall k1 s1 k2 s2, In (k1, s1) (t_syms T) -> In (k2, s2) (t_syms T) ->
                          normalize (s_name (hget (st_heap st) s1)) = normalize (s_name (hget (st_heap st) s2)) ->
                          s1 = s2).
-Proof. intros n ops T st. apply unique_names_inv_. apply reachable_run. Qed.
+Proof. exact unique_names_run. Qed.
 Print Assumptions C16_unique_names_inv.
 
 (* tags are unique per table and never stale: a tagged symbol is in the table that holds the tag *)
 Theorem C16_tags_never_stale : forall n ops T,
     In T (all_tables (run (init_state n) ops)) ->
     NoDup (map fst (t_tags T)) /\ forall tg s, In (tg, s) (t_tags T) -> In s (sids T).
-Proof. intros n ops T. apply tags_inv_. apply reachable_run. Qed.
+Proof. exact tags_run. Qed.
 Print Assumptions C16_tags_never_stale.
 
 (* no symbol object is held by two tables (the domain restriction under which (1) is stated:
    the model only lets operations create their own symbol objects, and drops the other table of a
    merge that got past check_for_clashes) *)
 Theorem C16_one_owner : forall n ops, NoDup (flat_map sids (all_tables (run (init_state n) ops))).
-Proof. intros n ops. apply ownership_inv_. apply reachable_run. Qed.
+Proof. exact one_owner_run. Qed.
 Print Assumptions C16_one_owner.
 
 (* (2) lookup(name), computed as the code does through the merged dictionary of get_symbols(),
@@ -83,7 +83,7 @@ Theorem C16_lookup_sound : forall n ops t T name s,
     let st := run (init_state n) ops in
     get_table st t = Some T -> lookup T (ancestors st t) name = Some s ->
     normalize (s_name (hget (st_heap st) s)) = normalize name.
-Proof. intros n ops t T name s st. apply lookup_sound_. apply reachable_run. Qed.
+Proof. exact lookup_sound_run. Qed.
 Print Assumptions C16_lookup_sound.
 
 (* (3) next_available_name: the counter loop always ends within |existing names|+1 iterations
@@ -113,7 +113,7 @@ Theorem C16_fresh_name_no_clash : forall n ops t T root shadowing other nm,
       (P = T \/ (shadowing = false /\ In P (ancestors st t)) \/ other = Some P) ->
       In (k, s) (t_syms P) ->
       normalize (s_name (hget (st_heap st) s)) <> normalize nm.
-Proof. intros n ops t T root shadowing other nm st. apply fresh_name_no_clash_. apply reachable_run. Qed.
+Proof. exact fresh_name_no_clash_run. Qed.
 Print Assumptions C16_fresh_name_no_clash.
 
 (* (4) full statement, FALSE of the code:
@@ -139,7 +139,7 @@ Theorem C16_merge_hypotheses_reachable : forall n ops t j T Ot,
     get_table st t = Some T -> nth_error (st_det st) j = Some Ot ->
     (match t with TDet j' => Nat.eqb j' j | _ => false end) = false ->
     TOK (st_heap st) T /\ TOK (st_heap st) Ot /\ (forall s, In s (sids T) -> ~ In s (sids Ot)).
-Proof. intros n ops t j T Ot st. apply reachable_merge_pre. apply reachable_run. Qed.
+Proof. exact merge_hypotheses_run. Qed.
 Print Assumptions C16_merge_hypotheses_reachable.
 
 Theorem C16_merge_adds_once_refuted :
@@ -219,11 +219,7 @@ Theorem C16_merge_rejected_unchanged_partial : forall st t j skip T Ot m oe st' 
     (m_self m = T /\ m_other m = Ot) /\
     (no_intrinsic_unresolved (st_heap st) T ->
      step st (OMerge t j skip) = (st', r) -> st' = st).
-Proof.
-  intros st t j skip T Ot m oe st' r HT HO Hm. split.
-  - destruct (merge_rejected_unchanged_partial_ _ _ _ _ _ _ _ Hm) as [A [B _]]. split; assumption.
-  - intros Hs H. eapply merge_step_rejected_unchanged_partial_; eauto.
-Qed.
+Proof. exact merge_rejected_unchanged_both. Qed.
 Print Assumptions C16_merge_rejected_unchanged_partial.
 
 Theorem C16_rejected_unchanged_refuted_specialise :
